@@ -6,6 +6,9 @@ From Tally Require Import Lib.Str Expr.StrOps Expr.Date Expr.Syntax Expr.Funcs E
 Import ListNotations.
 Open Scope string_scope.
 
+Lemma append_assoc_str (a b c : string) : ((a ++ b) ++ c)%string = (a ++ (b ++ c))%string.
+Proof. induction a as [|x a IH]; cbn [append]; [reflexivity|]. now rewrite IH. Qed.
+
 (* decide the closed string tests of a call's function name *)
 Ltac name_tests :=
   repeat match goal with
@@ -360,21 +363,24 @@ Section Laws.
     fn_normalized E [VStr t; VStr p] = Val (VBool (is_infix (normalize p) (normalize t))).
   Proof. split; reflexivity. Qed.
 
-  Lemma sfilter_app f a b : sfilter f (a ++ b) = sfilter f a ++ sfilter f b.
-  Proof. induction a as [|c a IH]; cbn [sfilter append]; [reflexivity|]. destruct (f c); cbn [append]; now rewrite IH. Qed.
-
-  Lemma normalize_app a b : normalize (a ++ b) = normalize a ++ normalize b.
-  Proof. unfold normalize. now rewrite upper_app, sfilter_app. Qed.
-
-  Lemma normalize_drops c a b : norm_drop (upper_char c) = true ->
-    normalize (a ++ String c b) = normalize (a ++ b).
-  Proof.
-    intros H. rewrite !normalize_app. f_equal.
-    unfold normalize, upper. cbn [smap sfilter]. now rewrite H.
-  Qed.
-
   Lemma normalize_case a a' : ci_equal a a' -> normalize a = normalize a'.
   Proof. unfold ci_equal, normalize. intros H. apply upper_eq_iff_lower_eq in H. now rewrite H. Qed.
+
+  (* a blank / hyphen / apostrophe / period / asterisk code point anywhere in the text is ignored, and nothing else is *)
+  Lemma normalize_drops s l1 c l2 :
+    cps (upper s) = (l1 ++ c :: l2)%list -> norm_drop c = true ->
+    normalize s = sconcat (filter (fun x => negb (norm_drop x)) (l1 ++ l2)).
+  Proof. intros H Hc. unfold normalize. rewrite H, !filter_app. cbn [filter]. now rewrite Hc. Qed.
+
+  Lemma normalize_keeps s l1 c l2 :
+    cps (upper s) = (l1 ++ c :: l2)%list -> norm_drop c = false ->
+    normalize s = (sconcat (filter (fun x => negb (norm_drop x)) l1) ++ c ++ sconcat (filter (fun x => negb (norm_drop x)) l2))%string.
+  Proof.
+    intros H Hc. unfold normalize. rewrite H, filter_app. cbn [filter]. rewrite Hc. cbn [negb].
+    unfold sconcat. rewrite fold_right_app. cbn [fold_right].
+    generalize (filter (fun x => negb (norm_drop x)) l1). intros l. induction l as [|x r IH]; cbn [fold_right]; [reflexivity|].
+    rewrite IH. now rewrite <- append_assoc_str.
+  Qed.
 
   (* regex: whatever re.search(pattern, text, IGNORECASE) says; an invalid pattern is an ExpressionError *)
   Lemma regex_spec p t :
@@ -456,6 +462,49 @@ Section Laws.
     intros Hin Hs Hv. unfold lookup_name. rewrite Hs, Hv.
     cbn in Hin. repeat (destruct Hin as [<-|Hin]; [reflexivity|]). destruct Hin.
   Qed.
+
+  (* ---------- name resolution ---------- *)
+  Definition primitive_value (name : string) : option value :=
+    if String.eqb name "description" then Some (VStr (t_description (e_txn E)))
+    else if String.eqb name "amount" then Some (t_amount (e_txn E))
+    else if String.eqb name "date" then Some (date_value E)
+    else if String.eqb name "month" then Some (date_part E month_of)
+    else if String.eqb name "year" then Some (date_part E year_of)
+    else if String.eqb name "day" then Some (date_part E day_of)
+    else if String.eqb name "weekday" then Some (date_part E weekday_of)
+    else if String.eqb name "source" then Some (VStr (t_source (e_txn E)))
+    else if String.eqb name "true" then Some (VBool true)
+    else if String.eqb name "false" then Some (VBool false)
+    else None.
+
+  (* a bare name: the evaluation's scope (loop variables, := targets), then the user variables, then the
+     transaction primitives, then the supplemental tables; otherwise an ExpressionError.  The name is lower-cased. *)
+  Lemma name_resolution_order id sc :
+    ev (EName id) sc =
+    (match sget sc (lower id) with
+     | Some v => Val v
+     | None =>
+         match sget (e_vars E) (lower id) with
+         | Some v => Val v
+         | None =>
+             match primitive_value (lower id) with
+             | Some v => Val v
+             | None => match sget (e_ds E) (lower id) with Some v => Val v | None => ExprErr end
+             end
+         end
+     end, sc).
+  Proof.
+    cbn [eval]. unfold lookup_name, primitive_value. cbn [fst snd].
+    destruct (sget sc (lower id)); [reflexivity|]. destruct (sget (e_vars E) (lower id)); [reflexivity|].
+    repeat match goal with |- context [if String.eqb (lower id) ?s then _ else _] => destruct (String.eqb (lower id) s); [reflexivity|] end.
+    destruct (sget (e_ds E) (lower id)); reflexivity.
+  Qed.
+
+  (* txn.<name> and field.<name> are decided by the transaction alone: no scope entry, user variable or table
+     called txn, field or <name> has any influence *)
+  Lemma eval_field_attr id attr sc :
+    lower id = "field" -> ev (EAttribute (EName id) attr) sc = (wrap (field_attr E (lower attr)), sc).
+  Proof. intros H. cbn [eval eval_attribute]. rewrite H. reflexivity. Qed.
 
   Lemma eval_txn_attr id attr sc :
     lower id = "txn" -> ev (EAttribute (EName id) attr) sc = (wrap (txn_attr E (lower attr)), sc).
@@ -682,6 +731,72 @@ Section Laws.
     Qed.
   End Single.
 End Laws.
+
+(* ---------- code points and blanks ---------- *)
+Lemma cps_concat s : sconcat (cps s) = s.
+Proof.
+  induction s as [|c r IH]; [reflexivity|]. cbn [cps].
+  destruct (cps r) as [|x xs] eqn:Ec.
+  - destruct r; [reflexivity|]. cbn [cps] in Ec. destruct (cps r) as [|y ys]; [discriminate|].
+    destruct r; [discriminate|]. destruct (is_cont a0); discriminate.
+  - destruct r as [|c2 r2]; [discriminate Ec || (cbn in Ec; discriminate)|].
+    destruct (is_cont c2); cbn [sconcat fold_right append] in *; now rewrite <- IH.
+Qed.
+
+Lemma dropwhile_spec {A} (f : A -> bool) l :
+  exists pre, l = (pre ++ dropwhile f l)%list /\ Forall (fun x => f x = true) pre /\
+              match dropwhile f l with x :: _ => f x = false | [] => True end.
+Proof.
+  induction l as [|x r [pre [H1 [H2 H3]]]]; cbn [dropwhile].
+  - exists []. repeat split; constructor.
+  - destruct (f x) eqn:Fx.
+    + exists (x :: pre). split; [cbn; now rewrite <- H1|]. split; [constructor; assumption|exact H3].
+    + exists []. repeat split; [constructor|exact Fx].
+Qed.
+
+(* str.strip(): the text is  blanks ++ result ++ blanks,  and the result neither starts nor ends with a blank *)
+Lemma strip_cps_spec l :
+  exists pre post, l = (pre ++ strip_cps l ++ post)%list /\
+    Forall (fun c => is_space_cp c = true) pre /\ Forall (fun c => is_space_cp c = true) post /\
+    match strip_cps l with x :: _ => is_space_cp x = false | [] => True end /\
+    match rev (strip_cps l) with x :: _ => is_space_cp x = false | [] => True end.
+Proof.
+  unfold strip_cps.
+  destruct (dropwhile_spec is_space_cp l) as [pre [H1 [H2 H3]]].
+  set (m := dropwhile is_space_cp l) in *.
+  destruct (dropwhile_spec is_space_cp (rev m)) as [post' [G1 [G2 G3]]].
+  set (k := dropwhile is_space_cp (rev m)) in *.
+  exists pre, (rev post'). split; [|split; [exact H2|split; [now apply Forall_rev|split]]].
+  - rewrite H1 at 1. f_equal. rewrite <- rev_app_distr, <- G1. now rewrite rev_involutive.
+  - (* head of the result *)
+    assert (Hm : m = (rev k ++ rev post')%list) by (rewrite <- rev_app_distr, <- G1; now rewrite rev_involutive).
+    destruct (rev k) as [|x r] eqn:Er; [exact I|]. rewrite Hm in H3. exact H3.
+  - rewrite rev_involutive. exact G3.
+Qed.
+
+Lemma strip_spec s :
+  exists pre post, s = (sconcat pre ++ strip s ++ sconcat post)%string /\
+    Forall (fun c => is_space_cp c = true) pre /\ Forall (fun c => is_space_cp c = true) post /\
+    match strip_cps (cps s) with x :: _ => is_space_cp x = false | [] => True end /\
+    match rev (strip_cps (cps s)) with x :: _ => is_space_cp x = false | [] => True end.
+Proof.
+  destruct (strip_cps_spec (cps s)) as [pre [post [H [H1 [H2 [H3 H4]]]]]]. exists pre, post.
+  split; [|repeat split; assumption].
+  rewrite <- (cps_concat s) at 1. rewrite H. unfold strip.
+  assert (A : forall a b, sconcat (a ++ b) = (sconcat a ++ sconcat b)%string).
+  { intros a b. unfold sconcat. induction a as [|x a IH]; cbn [app fold_right append]; [reflexivity|]. rewrite IH. now rewrite append_assoc_str. }
+  now rewrite !A.
+Qed.
+
+Lemma strip_idempotent_cps l : strip_cps (strip_cps l) = strip_cps l.
+Proof.
+  destruct (strip_cps_spec l) as [pre [post [_ [_ [_ [H3 H4]]]]]].
+  unfold strip_cps at 1. set (m := strip_cps l) in *.
+  assert (D1 : dropwhile is_space_cp m = m) by (destruct m as [|x r]; [reflexivity|cbn [dropwhile]; now rewrite H3]).
+  rewrite D1.
+  assert (D2 : dropwhile is_space_cp (rev m) = rev m) by (destruct (rev m) as [|x r]; [reflexivity|cbn [dropwhile]; now rewrite H4]).
+  rewrite D2. apply rev_involutive.
+Qed.
 
 (* strip_suffix(text, suffix) removes the suffix if present (compared ignoring ASCII case) and nothing else.
    History: before the fix "strip_suffix slices by explicit length" the code sliced text[:-len(suffix)], which
